@@ -6,5 +6,6 @@ def main(ctx):
     total = 30000 if ctx.thorough else 3200
     static_check(
         ctx, "static-multi", total, extra="--q DC,DS",
+        more_runs=[("static-multi", 0, "--q DC,DS --exhaustive %d" % (3 if ctx.thorough else 2))],
         rule="generated frameworks (recipes: components of mixed kinds, cycles, self-attacks, funnels across the hybrid threshold, duplicated attack lines, sparse ids through removal histories) x acceptance queries over lists of 1-3 arguments with forced spreads (different components, one component, attacker/attacked pair, repetitions) x all static solvers x selectable encoders x with/without certificate; each run replayed on Model.Solvers with the recorded SAT answers and judged by the brute-force disjunction semantics (credb/skepb) extracted from Spec.AF",
     )
